@@ -34,16 +34,21 @@
                          (the real checker marks the branch "definitely returned" and drops its
                          invalidations at the merge although the jumping path does not return).
      DevJumpNoExit       exits inside an if-branch do not cut the path where branches merge:
-                         after panic / break / continue / return (the latter three after their
-                         own loss check) the path goes on after the if statement with the
-                         invalidations made so far, and an if statement whose branches all exit
-                         may be skipped as a whole; after a break/continue has been passed this way
-                         every later invalidation in that loop iteration is only potential (the
-                         path on which the variable stays valid exists too); inside a loop a panic does not even suppress
-                         the loss report of its block; explains REJECTIONS of programs whose every
-                         real path is fine (DESIGN section 7 #10: the real checker cuts a branch
-                         at a merge only when it definitely returns, forgets invalidations of
-                         nested all-returning ifs, and invents one for return/halt siblings). *)
+                         (a) after panic / break / continue / return (the latter three after their
+                             own loss check) the path goes on after the if statement with the
+                             invalidations made so far;
+                         (b) an if statement whose branches all exit may be skipped as a whole;
+                         (c) once a break/continue has been passed this way, every later invalidation
+                             in that loop iteration is only potential (the path on which the variable
+                             stays valid exists too);
+                         (d) inside a loop a panic does not suppress the loss report of its block.
+                         Explains REJECTIONS of programs whose every real path is fine (DESIGN
+                         section 7 #10: the real checker cuts a branch at a merge only when it
+                         definitely returns, forgets the invalidations of nested all-returning ifs,
+                         invents one for return/halt siblings, and treats an invalidation textually
+                         after a jump in the same loop as potential). Deliberately an
+                         over-approximation: it is consulted only when the checker rejects a
+                         program the exact oracle accepts. *)
 EXTENDS Naturals, Sequences, FiniteSets, TLC, Json
 
 CONSTANT Devs          \* the set of variants to explore; each variant is a set of deviation names ({} = exact)
